@@ -42,16 +42,16 @@ def one(e):
             st = 'MISSED'
         else:
             st = 'ANALYSIS-BROKEN'
-        return e, st, ','.join(fired) or r.stdout.strip().splitlines()[-1][:160]
+        return e, st, ','.join(fired) or ((r.stdout.strip() or r.stderr.strip() or '?').splitlines()[-1][:160])
     finally:
         shutil.rmtree(tmp, ignore_errors=True)
 
 
 def main():
     a = sys.argv[1:]
-    prop = a[a.index('--prop') + 1] if '--prop' in a else None
+    prop = a[a.index('--prop') + 1].split(',') if '--prop' in a else None
     jobs = int(a[a.index('--jobs') + 1]) if '--jobs' in a else 4
-    es = [e for e in entries() if prop in (None, e[0])]
+    es = [e for e in entries() if prop is None or e[0] in prop]
     res = []
     with cf.ThreadPoolExecutor(jobs) as ex:
         for e, st, info in ex.map(one, es):
@@ -62,7 +62,10 @@ def main():
         len(res), sum(r['status'].startswith('REPORTED') for r in res), sum(r['status'] == 'DOES-NOT-APPLY' for r in res), len(bad)))
     if '--write' in a:
         os.makedirs(os.path.join(V, 'reverts'), exist_ok=True)
-        json.dump(res, open(os.path.join(V, 'reverts', 'RESULTS.json'), 'w'), indent=1)
+        path = os.path.join(V, 'reverts', 'RESULTS.json')
+        old = json.load(open(path)) if os.path.exists(path) and prop else []
+        keep = [o for o in old if not any(o['property'] == r['property'] and o['commit'] == r['commit'] for r in res)]
+        json.dump(sorted(keep + res, key=lambda r: (r['property'], r['commit'])), open(path, 'w'), indent=1)
     sys.exit(1 if bad else 0)
 
 
